@@ -46,7 +46,9 @@ type PoliciesData struct {
 }
 
 type StreamsData struct {
-	stream        *streams.Stream
+	stream *streams.Stream
+	// streamMu guards stream: a reload replaces it while transactions are being handled
+	streamMu      sync.RWMutex
 	flowValidator *validation.Validator
 }
 
@@ -103,7 +105,7 @@ func (rd *HandlingDataManager) Setup(telemetryWriter *logging.LunarTelemetryWrit
 		if err != nil {
 			return fmt.Errorf("failed to initialize metric manager: %w", err)
 		}
-		rd.metricManager.UpdateMetricsForFlow(rd.stream)
+		rd.metricManager.UpdateMetricsForFlow(rd.currentStream())
 		return nil
 	}
 	rd.doctor.WithPolicies(rd.GetTxnPoliciesAccessor)
@@ -137,8 +139,8 @@ func (rd *HandlingDataManager) GetTxnPoliciesAccessor() *config.TxnPoliciesAcces
 }
 
 func (rd *HandlingDataManager) GetLoadedStreamsConfig() *network.ConfigurationData {
-	if rd.isStreamsEnabled && rd.stream != nil {
-		f := rd.stream.GetLoadedConfig()
+	if stream := rd.currentStream(); rd.isStreamsEnabled && stream != nil {
+		f := stream.GetLoadedConfig()
 		return &f
 	}
 	return nil
@@ -227,12 +229,19 @@ func (rd *HandlingDataManager) initializeStreamsForDryRun() error {
 	return rd.flowValidator.Validate()
 }
 
+// currentStream returns the stream transactions are handled with right now.
+func (rd *HandlingDataManager) currentStream() *streams.Stream {
+	rd.streamMu.RLock()
+	defer rd.streamMu.RUnlock()
+	return rd.stream
+}
+
 func (rd *HandlingDataManager) initializeStreams() (err error) {
 	statusMsg := context_manager.Get().GetStatusMessage()
 	statusMsg.AddMessage(lunarEngine, "Engine: Lunar Flows")
 	_ = lunar_context.NewSharedState[int64]() // For Redis initialization
 	var previousHaProxyReq *config.HAProxyEndpointsRequest
-	if rd.stream != nil {
+	if rd.currentStream() != nil {
 		previousHaProxyReq = rd.buildHAProxyFlowsEndpointsRequest()
 	}
 
@@ -246,10 +255,12 @@ func (rd *HandlingDataManager) initializeStreams() (err error) {
 	}
 	// Publish the new stream only once it is fully built: transactions handled
 	// meanwhile keep using the previous one instead of an empty, half-built stream.
+	rd.streamMu.Lock()
 	rd.stream = stream
+	rd.streamMu.Unlock()
 	verifhook.Yield("streams.published", "")
 
-	rd.stream.InitializeHubCommunication()
+	stream.InitializeHubCommunication()
 	if err = config.WaitForProxyHealthcheck(); err != nil {
 		return fmt.Errorf("failed to wait for HAProxy healthcheck: %w", err)
 	}
@@ -319,7 +330,7 @@ func (rd *HandlingDataManager) handleOnError() func(http.ResponseWriter, *http.R
 		}
 
 		for failedTransactionID := range failedTransactions.FailedTransactions {
-			rd.stream.OnError(failedTransactionID)
+			rd.currentStream().OnError(failedTransactionID)
 		}
 
 		SuccessResponse(writer, "Error logged successfully")
@@ -558,7 +569,7 @@ func (rd *HandlingDataManager) buildHAProxyFlowsEndpointsRequest() *config.HAPro
 	reqCaptureForAll := false
 
 	managedEndpoints := []*config.HAProxyEndpointData{}
-	for _, filters := range rd.stream.GetSupportedFilters() {
+	for _, filters := range rd.currentStream().GetSupportedFilters() {
 		if len(filters) == 0 {
 			continue
 		}
@@ -657,6 +668,6 @@ func (rd *HandlingDataManager) reloadFlows() error {
 		return fmt.Errorf("failed to load metrics config: %v", err)
 	}
 
-	rd.metricManager.UpdateMetricsForFlow(rd.stream)
+	rd.metricManager.UpdateMetricsForFlow(rd.currentStream())
 	return nil
 }
